@@ -389,50 +389,52 @@ Definition comp_into_chunk (g : gstate) : gstate :=
        g_cinfo := (if has_param (g_comp g) then g_info g else g_cinfo g); g_comp := g_comp g; g_info := g_info g |}
   else g.
 
+(** the chunk part of the global ("*") request and of a table entry; None = FAIL (rank does not match) *)
+Definition global_chunk (o : options) (rank : Z) (g : gstate) : gstate :=
+  if k_rank (chunk_g o) =? -2 then set_flags g HDF_NONE
+  else if negb (k_rank (chunk_g o) =? rank) then g
+  else set_chunk g rank (k_lens (chunk_g o)).
+
+Definition entry_chunk (e : pack) (rank : Z) (g : gstate) : option gstate :=
+  let r := k_rank (p_chunk e) in
+  if (0 <? r) && negb (r =? rank) then None
+  else Some (if r =? -2 then set_flags g HDF_NONE
+             else if 0 <? r then set_chunk g rank (k_lens (p_chunk e)) else g).
+
 (** result: None = FAIL; Some (g, have_info) *)
 Definition get_info (o : options) (rank : Z) (p : str) (g : gstate) : option (gstate * bool) :=
   let obj := lookup p (tbl o) in
   let have := match obj with Some _ => true | None => false end in
   if all_chunk o && negb (all_comp o) then
     (* case 1: chunk all, compress selected *)
-    let g1 := if k_rank (chunk_g o) =? -2 then set_flags g HDF_NONE
-              else if negb (k_rank (chunk_g o) =? rank) then g
-              else set_chunk g rank (k_lens (chunk_g o)) in
     match obj with
-    | Some e => Some (comp_into_chunk (set_comp g1 (p_comp e)), have)
-    | None => Some (g1, have)
+    | Some e => Some (comp_into_chunk (set_comp (global_chunk o rank g) (p_comp e)), have)
+    | None => Some (global_chunk o rank g, have)
     end
   else if negb (all_chunk o) && negb (all_comp o) then
     (* case 2: both selected *)
     match obj with
     | None => Some (g, have)
     | Some e =>
-        let r := k_rank (p_chunk e) in
-        if (0 <? r) && negb (r =? rank) then None
-        else
-          let g1 := if r =? -2 then set_flags g HDF_NONE
-                    else if 0 <? r then set_chunk g rank (k_lens (p_chunk e)) else g in
-          if 0 <=? c_type (p_comp e) then Some (comp_into_chunk (set_comp g1 (p_comp e)), have)
-          else Some (g1, have)
+        match entry_chunk e rank g with
+        | None => None
+        | Some g1 => if 0 <=? c_type (p_comp e) then Some (comp_into_chunk (set_comp g1 (p_comp e)), have)
+                     else Some (g1, have)
+        end
     end
   else if negb (all_chunk o) && all_comp o then
     (* case 3: chunk selected, compress all *)
     match obj with
     | None => Some (comp_into_chunk (set_comp g (comp_g o)), have)
     | Some e =>
-        let r := k_rank (p_chunk e) in
-        if (0 <? r) && negb (r =? rank) then None
-        else
-          let g1 := if r =? -2 then set_flags g HDF_NONE
-                    else if 0 <? r then set_chunk g rank (k_lens (p_chunk e)) else g in
-          Some (comp_into_chunk (set_comp g1 (comp_g o)), have)
+        match entry_chunk e rank g with
+        | None => None
+        | Some g1 => Some (comp_into_chunk (set_comp g1 (comp_g o)), have)
+        end
     end
   else
     (* case 4: both all *)
-    let g1 := if k_rank (chunk_g o) =? -2 then set_flags g HDF_NONE
-              else if negb (k_rank (chunk_g o) =? rank) then g
-              else set_chunk g rank (k_lens (chunk_g o)) in
-    Some (comp_into_chunk (set_comp g1 (comp_g o)), have).
+    Some (comp_into_chunk (set_comp (global_chunk o rank g) (comp_g o)), have).
 
 (** * The layout decision of copy_sds / copy_gr *)
 Definition flags_of (l : layout) : Z :=
@@ -448,54 +450,52 @@ Definition gstate_of (l : layout) : gstate :=
 Definition b2z (b : bool) : Z := if b then 1 else 0.
 Definition none_layout (r : bool) : layout := {| l_comp := COMP_CODE_NONE; l_info := 0; l_chunk := None; l_rec := r |}.
 
-(** None = the copy function returns FAIL (hrepack exits 1) *)
-Definition decide_sds (o : options) (p : str) (i : objinfo) : option layout :=
+(** what copy_sds does once options_get_info has returned ([g], [have]); None = FAIL (hrepack exits 1) *)
+Definition restore_small (lin : layout) (g : gstate) : gstate :=
+  {| g_flags := flags_of lin; g_lens := g_lens g; g_ctype := g_ctype g; g_cinfo := g_cinfo g;
+     g_comp := l_comp lin; g_info := g_info g |}.
+
+Definition chunked_layout (g : gstate) : layout :=
+  if g_flags g =? HDF_CHUNK
+  then {| l_comp := COMP_CODE_NONE; l_info := 0; l_chunk := Some (g_lens g); l_rec := false |}
+  else {| l_comp := g_ctype g; l_info := obs_info (g_ctype g) (g_cinfo g); l_chunk := Some (g_lens g); l_rec := false |}.
+
+Definition sds_finish (o : options) (i : objinfo) (g0 : gstate) (have : bool) : option layout :=
   let lin := o_lay i in
-  if o_empty i then Some (none_layout (l_rec lin))
+  (* objects too small: back to the input's flags and type (the chunk definition keeps what it has) *)
+  let g := if truth (sds_restore_cond (b2z have) 1 (o_bytes i) 1 (threshold o)) then restore_small lin g0 else g0 in
+  if g_comp g =? COMP_CODE_JPEG then None    (* SDSs do not support JPEG *)
   else
-    match get_info o (o_rank i) p (gstate_of lin) with
-    | None => None
-    | Some (g, have) =>
-          (* objects too small: back to the input's flags and type (the chunk definition keeps what it has) *)
-          let g := if truth (sds_restore_cond (b2z have) 1 (o_bytes i) 1 (threshold o))
-                   then {| g_flags := flags_of lin; g_lens := g_lens g; g_ctype := g_ctype g; g_cinfo := g_cinfo g;
-                           g_comp := l_comp lin; g_info := g_info g |}
-                   else g in
-        if g_comp g =? COMP_CODE_JPEG then None    (* SDSs do not support JPEG *)
-        else
-          let is_record := truth (sds_record_cond (b2z (l_rec lin)) (g_comp g)) in
-          if truth (sds_chunk_branch (g_flags g)) then
-            (if is_record then Some (none_layout true)
-             else if g_flags g =? HDF_CHUNK
-                  then Some {| l_comp := COMP_CODE_NONE; l_info := 0; l_chunk := Some (g_lens g); l_rec := false |}
-                  else Some {| l_comp := g_ctype g; l_info := obs_info (g_ctype g) (g_cinfo g);
-                               l_chunk := Some (g_lens g); l_rec := false |})
-          else if truth (sds_comp_branch (g_flags g) (g_comp g)) then
-            (if truth (sds_small_cond (o_bytes i) 1 (threshold o)) then Some (none_layout is_record)
-             else if g_comp g =? COMP_CODE_NBIT then Some (none_layout is_record)
-             else Some {| l_comp := g_comp g; l_info := obs_info (g_comp g) (g_info g); l_chunk := None;
-                          l_rec := is_record |})
-          else Some (none_layout is_record)
-    end.
+    let is_record := truth (sds_record_cond (b2z (l_rec lin)) (g_comp g)) in
+    if truth (sds_chunk_branch (g_flags g)) then
+      (if is_record then Some (none_layout true) else Some (chunked_layout g))
+    else if truth (sds_comp_branch (g_flags g) (g_comp g)) then
+      (if truth (sds_small_cond (o_bytes i) 1 (threshold o)) then Some (none_layout is_record)
+       else if g_comp g =? COMP_CODE_NBIT then Some (none_layout is_record)
+       else Some {| l_comp := g_comp g; l_info := obs_info (g_comp g) (g_info g); l_chunk := None;
+                    l_rec := is_record |})
+    else Some (none_layout is_record).
+
+Definition decide_sds (o : options) (p : str) (i : objinfo) : option layout :=
+  if o_empty i then Some (none_layout (l_rec (o_lay i)))
+  else match get_info o (o_rank i) p (gstate_of (o_lay i)) with
+       | None => None
+       | Some (g, have) => sds_finish o i g have
+       end.
+
+Definition gr_finish (o : options) (i : objinfo) (g0 : gstate) (have : bool) : option layout :=
+  let lin := o_lay i in
+  let g := if truth (gr_restore_cond (b2z have) 1 (o_bytes i) 1 (threshold o)) then restore_small lin g0 else g0 in
+  if flags_chunked (g_flags g) then Some (chunked_layout g)
+  else if truth (gr_comp_branch (g_flags g) (g_comp g)) then
+    (if truth (gr_small_cond (b2z have) 1 (o_bytes i) 1 (threshold o)) then Some (none_layout false)
+     else Some {| l_comp := g_comp g; l_info := obs_info (g_comp g) (g_info g); l_chunk := None; l_rec := false |})
+  else Some (none_layout false).
 
 Definition decide_gr (o : options) (p : str) (i : objinfo) : option layout :=
-  let lin := o_lay i in
-  match get_info o 2 p (gstate_of lin) with
+  match get_info o 2 p (gstate_of (o_lay i)) with
   | None => None
-  | Some (g, have) =>
-      let g := if truth (gr_restore_cond (b2z have) 1 (o_bytes i) 1 (threshold o))
-               then {| g_flags := flags_of lin; g_lens := g_lens g; g_ctype := g_ctype g; g_cinfo := g_cinfo g;
-                       g_comp := l_comp lin; g_info := g_info g |}
-               else g in
-      if flags_chunked (g_flags g) then
-        (if g_flags g =? HDF_CHUNK
-         then Some {| l_comp := COMP_CODE_NONE; l_info := 0; l_chunk := Some (g_lens g); l_rec := false |}
-         else Some {| l_comp := g_ctype g; l_info := obs_info (g_ctype g) (g_cinfo g); l_chunk := Some (g_lens g);
-                      l_rec := false |})
-      else if truth (gr_comp_branch (g_flags g) (g_comp g)) then
-        (if truth (gr_small_cond (b2z have) 1 (o_bytes i) 1 (threshold o)) then Some (none_layout false)
-         else Some {| l_comp := g_comp g; l_info := obs_info (g_comp g) (g_info g); l_chunk := None; l_rec := false |})
-      else Some (none_layout false)
+  | Some (g, have) => gr_finish o i g have
   end.
 
 Definition decide (o : options) (k : kind) (p : str) (i : objinfo) : option layout :=
